@@ -36,7 +36,6 @@ EP_FN = {"exec": "execute", "query": "query", "sudo": "sudo", "instantiate": "in
 MSG_TY = {"exec": "ExecMsg", "query": "QueryMsg", "sudo": "SudoMsg", "instantiate": "InstantiateMsg", "migrate": "MigrateMsg"}
 WRAP_TY = {"exec": "ContractExecMsg", "query": "ContractQueryMsg", "sudo": "ContractSudoMsg"}
 ENUM_KINDS = ("exec", "query", "sudo")
-MT_IDS = ("S1", "R1", "R2")     # programs whose multitest proxies are exercised (C12)
 
 
 def pick(t, val, i):
@@ -554,7 +553,7 @@ def program_src(prog):
     o.append(schema_src(prog))
     if prog.get("builder"):
         o.append(builder_src(prog))
-    with_mt = prog["id"] in MT_IDS
+    with_mt = bool(prog.get("mt"))      # programs whose multitest proxies are exercised (C12): the specification's choice
     if with_mt:
         o.append(mt_src(prog))
     parts = ", ".join('"%s"' % p["id"] for p in prog["parts"])
